@@ -1043,3 +1043,38 @@ func genFileDef(emit func(string), tier string, rng *Rng) {
 		emit(fmt.Sprintf("filedef %d %s", in.ft.b, descsString(ds)))
 	}
 }
+
+// filedefmk <filetype byte> num:f1:f253:f254:tag:seed[:ft] ... → the complete `filedef` operation line (solo digests
+// filled in). A tool for writing corpus lines and witnesses by hand; not used by the check.
+func execFileDefMk(args []string) string {
+	if len(args) < 1 {
+		return "bad-op"
+	}
+	b, err := strconv.Atoi(args[0])
+	if err != nil {
+		return "bad-op"
+	}
+	ft := fileTypeByByte(b)
+	if ft == nil {
+		return "bad-op"
+	}
+	var ds []mdesc
+	for _, a := range args[1:] {
+		p := strings.Split(a, ":")
+		if len(p) == 6 {
+			p = append(p, "255")
+		}
+		if len(p) != 7 {
+			return "bad-op"
+		}
+		d, ok := parseMdesc(strings.Join(append(append([]string{}, p[:6]...), "0", p[6]), ":"))
+		if !ok {
+			return "bad-op"
+		}
+		d.dg = soloDigest(ft, d)
+		ds = append(ds, d)
+	}
+	return fmt.Sprintf("filedef %d %s", b, descsString(ds))
+}
+
+func init() { executors["filedefmk"] = execFileDefMk }
